@@ -16,7 +16,7 @@ for d in sorted(glob.glob(os.path.join(V, "seeded", "C*-*"))):
     rows.append("| %s | %s | %s | %s |" % (key, esc(m["change"]), esc(m.get("needs_to_manifest", "")), esc(short)))
 n = len(rows)
 head = ("## K. Seeded changes (generated from `seeded/*/meta.json`)\n\n"
-        "%d changes (three rounds of two per property, a fourth round for six properties), every one confirmed in a scratch worktree%s.\n\n"
+        "%d changes (three rounds of two per property, a fourth round for six properties, a fifth of one change for four properties), every one confirmed in a scratch worktree%s.\n\n"
         "| Seed | Change | Needs | Detected by (quick tier) |\n|---|---|---|---|\n"
         % (n, " and every one detected by the quick tier of the property it attacks" if not missed else "; not detected: " + ", ".join(missed)))
 p = os.path.join(V, "DESIGN.md")
